@@ -11,10 +11,11 @@
         characters; raised = "" or the class name of the exception that escaped; view = result.view_name (lower
         case, "" if none); via = "view" | "fallback" | "error" | "missing" | "raised" (a prediction: drift only);
         cls = character classes present in result.text in the order of ClassOrder.
-     [k |-> "dns_rt", transport, valid, rendered, reenc, exc, hdr_o, hdr_r, q_o, q_r, rr_o, rr_r]
+     [k |-> "dns_rt", transport, valid, rendered, dotted, reenc, exc, hdr_o, hdr_r, q_o, q_r, rr_o, rr_r]
         DNS view round trip: the original bytes and the bytes returned by reencode_message, both decoded by the
         independent reference decoder (lib/vf/dnsref.py).  valid = the original is a well-formed DNS message;
         rendered = the DNS view produced a rendering (no error text); reenc = "ok" | "raised" | "unparsable";
+        dotted = some label of the original (owner, question, name inside RDATA, HTTPS target) contains ".";
         hdr = <<id, qr, opcode, aa, tc, rd, ra, z, rcode>>; q = << <<name, type, class>> >>;
         rr = << <<section, name, type, class, ttl, data>> >>; names, ttls and data are interned small integers
         (equality is all that is needed; names compare case-insensitively, RDATA of types that are defined to
@@ -46,13 +47,18 @@ QDiff(a, b) == IF Len(a) # Len(b) THEN <<"count">>
 RDiff(a, b) == IF Len(a) # Len(b) THEN <<"count", 0>>
                ELSE LET i == FirstDiff(a, b) IN <<RNames[FirstDiff(a[i], b[i])], a[i][3]>>   \* a[i][3]: record type
 
+\* Signature only: whether some label of the original message contains a "." (the one input feature behind the
+\* registered name findings); failures of messages without such a label carry the extra field "undotted".
+Undotted(ev) == IF ev.dotted THEN <<>> ELSE <<"undotted">>
+RSuffix(ev, d) == IF d[1] = "name" \/ d[2] = 65 THEN Undotted(ev) ELSE <<>>
 DnsClause(ev) ==
   IF ~(ev.valid /\ ev.rendered) THEN <<>>       \* not a DNS message, or no DNS-view rendering to re-encode
-  ELSE IF ev.reenc = "raised" THEN <<"C50.dns_reencode_raises", ev.exc>>
+  ELSE IF ev.reenc = "raised" THEN <<"C50.dns_reencode_raises", ev.exc>> \o Undotted(ev)
   ELSE IF ev.reenc = "unparsable" THEN <<"C50.dns_reencoded_not_dns">>
   ELSE IF ev.hdr_o # ev.hdr_r THEN <<"C50.dns_roundtrip_differs", "header", HdrNames[FirstDiff(ev.hdr_o, ev.hdr_r)]>>
-  ELSE IF ev.q_o # ev.q_r THEN <<"C50.dns_roundtrip_differs", "questions">> \o QDiff(ev.q_o, ev.q_r)
+  ELSE IF ev.q_o # ev.q_r THEN <<"C50.dns_roundtrip_differs", "questions">> \o QDiff(ev.q_o, ev.q_r) \o Undotted(ev)
   ELSE IF ev.rr_o # ev.rr_r THEN <<"C50.dns_roundtrip_differs", "records">> \o RDiff(ev.rr_o, ev.rr_r)
+                                  \o RSuffix(ev, RDiff(ev.rr_o, ev.rr_r))
   ELSE <<>>
 
 ViaWit(v) == CASE v = "view" -> {"via_view"} [] v = "fallback" -> {"via_fallback"} [] v = "error" -> {"via_error"}
